@@ -99,8 +99,8 @@ Out(st, q) ==
 \* Flavours: optional settings of the elements that have NO bearing on consistency.  Out takes no flavour: whatever the
 \* index is (primary key, unique), whether column a is a primary key, whichever way the reference points, the same
 \* defect must be refused with the same error.  Every history is executed in several flavours of the universe.
-Flavours == [ipk : BOOLEAN, iunique : BOOLEAN, apk : BOOLEAN, rtype : {">", "<", "-"}, r2inline : BOOLEAN, aenum : BOOLEAN]      \* (aenum: column a is typed with enum E)
-Plain == [ipk |-> FALSE, iunique |-> FALSE, apk |-> FALSE, rtype |-> ">", r2inline |-> FALSE, aenum |-> FALSE]
+Flavours == [ipk : BOOLEAN, iunique : BOOLEAN, apk : BOOLEAN, rtype : {">", "<", "-"}, r2inline : BOOLEAN, aenum : BOOLEAN, tabstract : BOOLEAN]      \* (aenum: column a is typed with enum E)
+Plain == [ipk |-> FALSE, iunique |-> FALSE, apk |-> FALSE, rtype |-> ">", r2inline |-> FALSE, aenum |-> FALSE, tabstract |-> FALSE]
 
 \* every way of being inconsistent in exactly one way (vacuity guard: the harness requires that each was reached and judged)
 AllDefects == Attrs \cup {"index detached", "a detached", "b detached", "mixed side", "composite inline", "table detached"}
